@@ -1,6 +1,6 @@
 /* outblocks is unbounded (up to the object-size limit); out has exactly 64*outblocks bytes */
 void harness(void) {
-  VERIF_HAVOC_GLOBALS();
+  VERIF_PROLOGUE();
   output_t o;
   uint32_t other_cv[8];
   uint8_t other_block[64];
